@@ -25,6 +25,13 @@ Pipeline
      parameter received (symbolic: obj / attr / compute_fn application), readiness, applied set popped at the end.
      After-failure oracle: on one parser a failing instantiate_classes call followed by a good one must behave
      like a first call and leave nothing on the parser or in the caller's cfg (C16_bookkeeping_fresh on real code).
+     List targets: the end-to-end scenarios include arguments that are LISTS of subclass specs (parameter of a class group,
+     top-level List[...] / Optional[List[...]] argument, list below a subclass spec) whose element classes have different
+     signatures, and single subclass arguments whose class lacks the linked parameter; oracle: every element that has the
+     parameter received the value, source first, every element constructed once, parameters no link feeds untouched.  The
+     shape of the parsed cfg at each link's target action is read from the real cfg and handed to the model (`targetSlots`).
+     Correspondence d: real ActionLink.set_target_value on hand-made configurations vs model `targetSlots`.
+     Statement ties: Gen/LinkFlowSrc (extractor link_flow_src) pins the eight transcribed functions (tie_* theorems).
   5. open findings are replayed (still failing -> KNOWN-FINDING).
 """
 from __future__ import annotations
@@ -38,33 +45,45 @@ import shutil
 import sys
 import tempfile
 import types
+from typing import List, Optional
 
 from ..lib.common import Ctx, MachineryError, repo_python_path
 
 MANIFEST = {
     "engine": "E5-Graph",
-    "technique": "Lean 4 proof of the DirectedGraph topological sort, of reorder and of the component order (all graphs, no size bound) "
-                 "+ exhaustive/random differential correspondence with the real DirectedGraph/ActionLink + end-to-end constructor-log oracle on real parsers",
+    "technique": "Lean 4 proof of the DirectedGraph topological sort, of reorder, of the component order and of the value delivery of "
+                 "set_target_value/apply_instantiation_links (all graphs / link sets / lists, no size bound) + statement ties of the eight transcribed "
+                 "functions + exhaustive/random differential correspondence with the real DirectedGraph/ActionLink + end-to-end constructor-log oracle "
+                 "on real parsers (class groups, subclass arguments, nested specs, lists of subclass specs with mixed signatures)",
     "text": "Theorems in lean/Jap/Props/C16.lean prove for every sequence of add_edge calls that get_topological_order returns a permutation of the "
             "nodes with every edge forward, fails only with an edge closing a real cycle, and succeeds iff the graph is acyclic (fuel n+1 suffices); that "
             "reorder is the stable sort by first matching key; that with flat keys every source component precedes the component it feeds; and, on "
-            "the value-flow model of apply_instantiation_links/instantiate_classes (applied-links set kept in the per-call cfg, opaque compute_fn table, "
-            "constructor log), that every class component is constructed exactly once, every argument received through a link key is F(constructed "
-            "source objects/attributes) whenever the sources are ready - which the order theorems give for acyclic link sets with owned keys - and "
-            "that every call starts with an empty applied set because the bookkeeping lives in cfg (regenerated Gen/LinkBookkeeping). The "
-            "model is tied to /repo by running the real DirectedGraph, ActionLink.reorder and ActionLink.instantiation_order against the model's "
-            "executable definitions on exhaustive small graphs in every insertion order, random graphs and real parsers; the property itself is checked "
-            "end to end from constructor logs of real parsers with generated acyclic and cyclic link sets in every declaration order.",
+            "the value-flow model of set_target_value/apply_instantiation_links/instantiate_classes (applied-links set kept in the per-call cfg, opaque "
+            "compute_fn table, constructor log, target positions = the target key or, for a target inside a list of subclass specs, the parameter in "
+            "every item that has it), that every class component is constructed exactly once, every argument received through a link position is "
+            "F(constructed source objects/attributes) and every position of every feeding link inside a component is filled whenever the sources are "
+            "ready - which the order theorems give for acyclic link sets with owned keys; that a list target is written in every item having the "
+            "parameter and nowhere else (C16_list_delivery); and that every call starts with an empty applied set because the bookkeeping lives in "
+            "cfg (regenerated Gen/LinkBookkeeping). The statements of set_target_value, apply_instantiation_links, instantiation_order, reorder, "
+            "DirectedGraph.add_edge/get_topological_order/topological_sort and of the component loop of instantiate_classes are regenerated into "
+            "Gen/LinkFlowSrc and pinned by tie_* theorems. The model is tied to /repo by running the real DirectedGraph, ActionLink.reorder, "
+            "ActionLink.instantiation_order and ActionLink.set_target_value against the model's executable definitions on exhaustive small graphs in "
+            "every insertion order, random graphs, hand-made configurations and real parsers; the property itself is checked end to end from "
+            "constructor logs of real parsers with generated acyclic and cyclic link sets in every declaration order.",
     "level_note": "Trusted: Lean kernel; axioms propext/Quot.sound/Classical.choice only; the correspondence harness; list(set) iteration order is taken "
-                  "from the running interpreter and passed to the model. The full component-order statement is false for the code (open finding "
-                  "C16-nested-target-in-source: a link target nested inside a component that is itself a link source); proved under the explicit "
-                  "FlatKeys hypothesis, negation proved on a witness. Outside: interpreter recursion limit (chains of ~1000 links), nested links "
-                  "applied inside a subclass (is_nested_instantiation_link), links whose source attribute is missing at run time.",
+                  "from the running interpreter and passed to the model; the shape of the parsed configuration at a link's target action (which items "
+                  "of a list hold which keys) is read from the real cfg and passed to the model. The full component-order statement is false for the "
+                  "code (open finding C16-nested-target-in-source: a link target nested inside a component that is itself a link source); proved under "
+                  "the explicit FlatKeys hypothesis, negation proved on a witness. Open finding C16-list-below-subclass-dropped: a list target below a "
+                  "subclass spec receives nothing (model agrees with the code, witness in Props). Outside: interpreter recursion limit (chains of ~1000 "
+                  "links), nested links applied inside a subclass (is_nested_instantiation_link), links whose source attribute is missing at run time, "
+                  "the type check of a link into a whole subclass-typed argument, list items that are not Namespaces.",
 }
 
 FINDING_ORDER = "C16-nested-target-in-source"
 FINDING_CYCLE = "C16-containment-cycle-accepted"
 FINDING_NSRC = "C16-nested-source-after-enclosing-group"
+FINDING_SUBLIST = "C16-list-below-subclass-dropped"
 MODNAME = "c16_e2e_classes"
 CYCLE_RE = re.compile(r"Graph has cycles, found while checking (.*) --> (.*)$", re.S)
 
@@ -258,7 +277,7 @@ def exhaustive_reorder_cases():
 # end to end: generated classes, scenarios, oracle
 # ---------------------------------------------------------------------------------------------
 def classes_source():
-    out = ["from typing import Any", "", "LOG = []", "", "", "def _log(name, obj, kw):", "    LOG.append((name, obj, dict(kw)))", "", ""]
+    out = ["from typing import Any, List", "", "LOG = []", "", "", "def _log(name, obj, kw):", "    LOG.append((name, obj, dict(kw)))", "", ""]
     for i in range(4):
         out += [
             "class K%d:" % i,
@@ -288,6 +307,39 @@ def classes_source():
             "        self.child, self.r, self.r2 = child, r, r2",
             "        self.at = ['R%d.at']" % i,
             "        self.bt = ['R%d.bt']" % i,
+            "", "",
+        ]
+        out += [
+            # a subclass of K<i> WITHOUT the parameters p0/p1 (a link into them finds no target: ignored, object untouched)
+            "class K%dn(K%d):" % (i, i),
+            "    def __init__(self, p2: Any = 'K%d.p2', p3: Any = 'K%d.p3'):" % (i, i),
+            "        _log('K%dn', self, dict(p2=p2, p3=p3))" % i,
+            "        self.p2, self.p3 = p2, p3",
+            "        self.at = ['K%dn.at']" % i,
+            "        self.bt = ['K%dn.bt']" % i,
+            "", "",
+            # elements of list-of-subclasses arguments: the log name carries the element's tag (given in the config)
+            "class E%d:" % i,
+            "    def __init__(self, tag: str = '', p0: Any = 'E%d.p0', p1: Any = 'E%d.p1'):" % (i, i),
+            "        _log(type(self).__name__ + '@' + tag, self, dict(p0=p0, p1=p1))",
+            "", "",
+            "class E%da(E%d):" % (i, i),
+            "    pass",
+            "", "",
+            "class E%dn(E%d):" % (i, i),
+            "    def __init__(self, tag: str = '', q: Any = 'E%d.q'):" % i,
+            "        _log('E%dn@' + tag, self, dict(q=q))" % i,
+            "", "",
+            "class E%dh(E%d):" % (i, i),
+            "    def __init__(self, tag: str = '', p0: Any = 'E%d.p0'):" % i,
+            "        _log('E%dh@' + tag, self, dict(p0=p0))" % i,
+            "", "",
+            "class L%d:" % i,
+            "    def __init__(self, elems: List[E%d] = [], r: Any = 'L%d.r', r2: Any = 'L%d.r2'):" % (i, i, i),
+            "        _log('L%d', self, dict(elems=elems, r=r, r2=r2))" % i,
+            "        self.elems, self.r, self.r2 = elems, r, r2",
+            "        self.at = ['L%d.at']" % i,
+            "        self.bt = ['L%d.bt']" % i,
             "", "",
         ]
     out += [
@@ -320,9 +372,62 @@ def gen_module():
 #   comps: [{"name": dest, "kind": "group"|"subclass"|"typed"|"deepgroup"|"deepsub", "cls": i}]   in declaration order
 #   links: [{"sources": [[obj, attr|None], ...], "target": [obj, slot], "fn": None|"f1"|"f2"}]      in declaration order
 # objects are named  "<comp>"  "<comp>/child"  "<comp>/child/grandchild"  (the latter two only for deep kinds)
+#   list kinds (targets that are LISTS of subclass specs): {"kind": "listgroup"|"listarg"|"optlistarg", "elems": [variant, ...]}
+#       listgroup: class group L<i>(elems: List[E<i>], r, r2); listarg: --name of type List[E<i>]; optlistarg: Optional[List[E<i>]]
+#       variant "" = E<i>(p0, p1), "a" = subclass with the same signature, "n" = subclass WITHOUT p0/p1, "h" = subclass with p0 only
+#       the elements are the pseudo object "<comp>/*" (a link target only): slot p0/p1 is fed into EVERY element whose class has it
+#   flat subclass/typed components may carry "lacks": true: the class given in the config is K<i>n, which has no p0/p1
 FLAT_KINDS = ("group", "subclass", "typed")
 DEEP_KINDS = ("deepgroup", "deepsub")
-SLOTS = {"": ["p0", "p1", "p2", "p3"], "root": ["r", "r2"], "child": ["p", "q"], "grandchild": ["g", "h"]}
+#       sublist: subclass argument --name whose given class is L<i>; its elems are addressed as name.init_args.elems.init_args.<p>
+#                (open finding C16-list-below-subclass-dropped: set_target_value drops such a link silently)
+LIST_KINDS = ("listgroup", "listarg", "optlistarg", "sublist")
+GEN_LIST_KINDS = ("listgroup", "listarg", "optlistarg", "listgroup", "listarg", "optlistarg", "sublist")
+HOLDER_KINDS = ("listgroup", "sublist")  # the list is a parameter of an object L<i> that is constructed too
+SLOTS = {"": ["p0", "p1", "p2", "p3"], "root": ["r", "r2"], "child": ["p", "q"], "grandchild": ["g", "h"], "elems": ["p0", "p1"]}
+VARIANT_PARAMS = {"": ["p0", "p1"], "a": ["p0", "p1"], "n": ["q"], "h": ["p0"]}
+LACKS_PARAMS = ["p2", "p3"]
+
+
+def is_elems(obj):
+    return obj.endswith("/*")
+
+
+def slots_of(sc, obj):
+    c = comp_by_name(sc, comp_of(obj))
+    if c["kind"] in LIST_KINDS:
+        return SLOTS["elems"] if is_elems(obj) else SLOTS["root"]
+    if c["kind"] in DEEP_KINDS:
+        return SLOTS[["root", "child", "grandchild"][obj_level(obj)]]
+    return SLOTS[""]
+
+
+def list_dest(c):
+    """dest of the list-typed action of a list component"""
+    return c["name"] + ".elems" if c["kind"] == "listgroup" else c["name"] + ".init_args.elems" if c["kind"] == "sublist" else c["name"]
+
+
+def elem_log_name(c, j):
+    return "E%d%s@%s#%d" % (c["cls"], c["elems"][j], c["name"], j)
+
+
+def log_names(sc, obj):
+    """names under which the constructor calls of an object show up in the log (several for the elements of a list)"""
+    if is_elems(obj):
+        c = comp_by_name(sc, comp_of(obj))
+        return [elem_log_name(c, j) for j in range(len(c["elems"]))]
+    return [class_of(sc, obj)]
+
+
+def has_slot(sc, obj_log_name, obj, slot):
+    """does the class constructed for this (element of the) object have the parameter `slot`"""
+    c = comp_by_name(sc, comp_of(obj))
+    if is_elems(obj):
+        j = int(obj_log_name.rsplit("#", 1)[1])
+        return slot in VARIANT_PARAMS[c["elems"][j]]
+    if c.get("lacks") and obj_level(obj) == 0:
+        return slot in LACKS_PARAMS
+    return True
 
 
 def comp_of(obj):
@@ -343,14 +448,22 @@ def comp_by_name(sc, name):
 def objects_of(comp):
     if comp["kind"] in DEEP_KINDS:
         return [comp["name"] + "/child/grandchild", comp["name"] + "/child", comp["name"]]
+    if comp["kind"] in HOLDER_KINDS:
+        return [comp["name"] + "/*", comp["name"]]
+    if comp["kind"] in LIST_KINDS:
+        return [comp["name"] + "/*"]
     return [comp["name"]]
 
 
 def class_of(sc, obj):
     c = comp_by_name(sc, comp_of(obj))
+    if is_elems(obj):
+        raise MachineryError("class_of on the elements of a list component")
     if c["kind"] in DEEP_KINDS:
         return "RCG"[obj_level(obj)] + str(c["cls"])
-    return "K%d" % c["cls"]
+    if c["kind"] in HOLDER_KINDS:
+        return "L%d" % c["cls"]
+    return ("K%dn" if c.get("lacks") else "K%d") % c["cls"]
 
 
 def source_key(sc, src):
@@ -368,6 +481,8 @@ def target_key(sc, tgt):
     obj, slot = tgt
     c = comp_by_name(sc, comp_of(obj))
     name, kind, lvl = c["name"], c["kind"], obj_level(obj)
+    if kind in LIST_KINDS:
+        return "%s.init_args.%s" % (list_dest(c), slot) if is_elems(obj) else ("%s.init_args.%s" if kind == "sublist" else "%s.%s") % (name, slot)
     if kind == "group":
         return "%s.%s" % (name, slot)
     if kind in ("subclass", "typed"):
@@ -420,6 +535,16 @@ def nested_source_below_linked(sc, links=None):
     return bool(nested_source_keys(sc, links))
 
 
+def is_sublist_drop_failure(sc, fails):
+    """signature of the open finding C16-list-below-subclass-dropped: every failure is "did not receive" for an element of
+    a list that is a parameter of a class given as a subclass spec (target <arg>.init_args.elems.init_args.<p>)"""
+    names = [c["name"] for c in sc["comps"] if c["kind"] == "sublist"]
+    if not names or not fails:
+        return False
+    pat = re.compile(r"parameter (p0|p1) of E\d\w?@(%s)#\d+ did not receive the linked value" % "|".join(re.escape(n) for n in names))
+    return all(pat.match(f) for f in fails)
+
+
 def is_nested_source_failure(sc, fails):
     keys = nested_source_keys(sc)
     return bool(keys) and bool(fails) and all("NSKeyError" in f and any('Key "%s"' % k in f for k in keys) for f in fails)
@@ -432,6 +557,15 @@ def build_parser(sc):
     mod = gen_module()
     parser = ArgumentParser(exit_on_error=False)
     for c in sc["comps"]:
+        if c["kind"] in LIST_KINDS:
+            if c["kind"] == "listgroup":
+                parser.add_class_arguments(getattr(mod, "L%d" % c["cls"]), c["name"])
+            elif c["kind"] == "sublist":
+                parser.add_subclass_arguments(getattr(mod, "L%d" % c["cls"]), c["name"])
+            else:
+                et = List[getattr(mod, "E%d" % c["cls"])]
+                parser.add_argument("--" + c["name"], type=Optional[et] if c["kind"] == "optlistarg" else et)
+            continue
         cls = getattr(mod, ("R%d" if c["kind"] in DEEP_KINDS else "K%d") % c["cls"])
         if c["kind"] in ("group", "deepgroup"):
             parser.add_class_arguments(cls, c["name"])
@@ -454,8 +588,14 @@ def parse_args_for(sc):
     for c in sc["comps"]:
         n, i = c["name"], c["cls"]
         child = {"class_path": "%s.C%d" % (MODNAME, i), "init_args": {"grandchild": {"class_path": "%s.G%d" % (MODNAME, i)}}}
-        if c["kind"] in ("subclass", "typed"):
-            args.append("--%s=%s.K%d" % (n, MODNAME, i))
+        if c["kind"] in LIST_KINDS:
+            elems = [{"class_path": "%s.E%d%s" % (MODNAME, i, v), "init_args": {"tag": "%s#%d" % (n, j)}} for j, v in enumerate(c["elems"])]
+            if c["kind"] == "sublist":
+                args.append("--%s=%s" % (n, json.dumps({"class_path": "%s.L%d" % (MODNAME, i), "init_args": {"elems": elems}})))
+            else:
+                args.append("--%s=%s" % (list_dest(c), json.dumps(elems)))
+        elif c["kind"] in ("subclass", "typed"):
+            args.append("--%s=%s.K%d%s" % (n, MODNAME, i, "n" if c.get("lacks") else ""))
         elif c["kind"] == "deepgroup":
             args.append("--%s.child=%s" % (n, json.dumps(child)))
         elif c["kind"] == "deepsub":
@@ -537,6 +677,7 @@ def run_acyclic(sc):
     del mod.LOG[:]
     try:
         cfg = parser.parse_args(parse_args_for(sc))
+        obs["targets"] = target_shapes(parser, cfg)  # snapshot before instantiation
         with Recorder() as rec:
             parser.instantiate_classes(cfg)
         obs["reorder_calls"] = rec.calls
@@ -556,32 +697,84 @@ def run_acyclic(sc):
             fails.append("class %s constructed more than once" % name)
         else:
             first[name] = (idx, inst, kw)
+    expected_names = [n for o in all_objects(sc) for n in log_names(sc, o)]
     for o in all_objects(sc):
-        if class_of(sc, o) not in first:
-            fails.append("class %s (object %s) was not constructed" % (class_of(sc, o), o))
+        for n in log_names(sc, o):
+            if n not in first:
+                fails.append("class %s (object %s) was not constructed" % (n, o))
+    for n in first:
+        if n not in expected_names:
+            fails.append("unexpected constructor call %s" % n)
     if fails:
         return fails, obs
+    fed = set()
     for l in sc["links"]:
         tobj, slot = l["target"]
-        tidx, _, tkw = first[class_of(sc, tobj)]
-        expected = []
-        for sobj, attr in l["sources"]:
-            sidx, sinst, _ = first[class_of(sc, sobj)]
-            if not sidx < tidx:
-                fails.append("source %s constructed after the object %s it feeds" % (sobj, tobj))
-            expected.append(getattr(sinst, attr) if attr else sinst)
-        got = tkw[slot]
-        want = [l["fn"]] + expected if l.get("fn") else expected[0]
-        ok = same_value(got, want)
-        if not ok:
-            fails.append("parameter %s of %s did not receive the linked value (got %s)" % (slot, tobj, type(got).__name__ if not isinstance(got, str) else got))
+        # a list target: every element whose class has the parameter; a single target whose class lacks it: nothing
+        for tname in log_names(sc, tobj):
+            if not has_slot(sc, tname, tobj, slot):
+                continue
+            fed.add((tname, slot))
+            tidx, _, tkw = first[tname]
+            expected = []
+            for sobj, attr in l["sources"]:
+                sidx, sinst, _ = first[class_of(sc, sobj)]
+                if not sidx < tidx:
+                    fails.append("source %s constructed after the object %s it feeds" % (sobj, tname if is_elems(tobj) else tobj))
+                expected.append(getattr(sinst, attr) if attr else sinst)
+            got = tkw[slot]
+            want = [l["fn"]] + expected if l.get("fn") else expected[0]
+            ok = same_value(got, want)
+            if not ok:
+                fails.append("parameter %s of %s did not receive the linked value (got %s)" % (slot, tname if is_elems(tobj) else tobj, type(got).__name__ if not isinstance(got, str) else got))
+    # parameters no link feeds are untouched: a plain-data parameter still holds its default "<Class>.<param>"
+    for n, (_, _, kw) in first.items():
+        for k, v in kw.items():
+            if (n, k) not in fed and isinstance(v, list) and v and v[0] in ("f1", "f2"):
+                fails.append("parameter %s of %s holds a linked value although no link feeds it" % (k, n))
+            elif (n, k) not in fed and re.fullmatch(r"[KRCGLE]\d\w?", type(v).__name__) and k not in ("child", "grandchild"):
+                fails.append("parameter %s of %s holds a source object although no link feeds it" % (k, n))
     return fails, obs
+
+
+def _ns_keys(ns):
+    """every key path (leaf and branch) below a Namespace, as `in` would answer"""
+    from jsonargparse import Namespace
+
+    out = []
+    for k, v in vars(ns).items():
+        out.append(k)
+        if isinstance(v, Namespace):
+            out.extend(k + "." + x for x in _ns_keys(v))
+    return out
+
+
+def target_shapes(parser, cfg):
+    """per instantiation link (declaration order) what set_target_value will find: the dest of the target action, whether
+    it is subclass-typed (lists included), and the shape of the parsed value there - read off the REAL parser and cfg"""
+    from jsonargparse import Namespace
+    from jsonargparse._link_arguments import get_link_actions
+    from jsonargparse._typehints import ActionTypeHint
+
+    out = []
+    for a in get_link_actions(parser, "instantiate"):
+        ta = a.target[1]
+        tsub = bool(ActionTypeHint.is_subclass_typehint(ta, all_subtypes=False, also_lists=True))
+        parent = cfg.get(ta.dest) if tsub else None
+        if isinstance(parent, Namespace):
+            shape = {"single": sorted(_ns_keys(parent))}
+        elif isinstance(parent, list):
+            shape = {"list": [sorted(_ns_keys(i)) if isinstance(i, Namespace) else None for i in parent]}
+        else:
+            shape = {"gone": True}
+        out.append({"tdest": ta.dest, "tsub": tsub, "parent": shape})
+    return out
 
 
 def dest_of_class(sc, clsname):
     """flow-model component dest of the object a generated class is constructed for (as a link source would name it)"""
     for o in all_objects(sc):
-        if class_of(sc, o) == clsname:
+        if not is_elems(o) and class_of(sc, o) == clsname:
             c = comp_by_name(sc, comp_of(o))
             if c["kind"] == "deepgroup" and obj_level(o) >= 1:
                 return c["name"] + ".child" if obj_level(o) == 1 else c["name"] + ".child.grandchild"
@@ -597,27 +790,40 @@ def canon_val(sc, v):
         return {"raw": v}
     if isinstance(v, list) and v and v[0] in ("f1", "f2"):
         return {"app": [v[0], [canon_val(sc, x) for x in v[1:]]]}
-    if isinstance(v, list) and len(v) == 1 and isinstance(v[0], str) and v[0][-3:] in (".at", ".bt"):
+    if isinstance(v, list) and len(v) == 1 and isinstance(v[0], str) and v[0][-3:] in (".at", ".bt"):  # e.g. ['K0n.at']
         return {"attr": [{"obj": dest_of_class(sc, v[0][:-3])}, v[0][-2:]]}
     if isinstance(v, (Namespace, dict)):
         return {"ns": "?"}
     name = type(v).__name__
-    if re.fullmatch(r"[KRCG]\d", name):
+    if re.fullmatch(r"[KRCGL]\dn?", name):
         return {"obj": dest_of_class(sc, name)}
     return {"other": name}
 
 
-def flow_case(sc, reorder_call):
-    """driver input for the value-flow model: the scenario's links, the order and the component sequence the real
+def flow_case(sc, reorder_call, targets):
+    """driver input for the value-flow model: the scenario's links (each with what the REAL parser/cfg hold at its target
+    action: dest, subclass-typed?, shape of the parsed value), the order and the component sequence the real
     instantiate_classes used (recorded), each component flagged: constructs a class"""
     classes = set()
     for c in sc["comps"]:
+        if c["kind"] in LIST_KINDS:
+            if c["elems"] and c["kind"] != "sublist":
+                classes.add(list_dest(c))  # builds the elements (an empty list shows no constructor call)
+            if c["kind"] in HOLDER_KINDS:
+                classes.add(c["name"])  # sublist: the elements are built inside the subclass component itself
+            continue
         classes.add(c["name"])
         if c["kind"] == "deepgroup":
             classes.add(c["name"] + ".child")
-    links = [{"sources": [[source_key(sc, [o, None]), a] for o, a in l["sources"]], "target": target_key(sc, l["target"]), "fn": l.get("fn")}
-             for l in sc["links"]]
+    links = [{"sources": [[source_key(sc, [o, None]), a] for o, a in l["sources"]], "target": target_key(sc, l["target"]), "fn": l.get("fn"),
+              "tdest": t["tdest"], "tsub": t["tsub"], "parent": t["parent"]}
+             for l, t in zip(sc["links"], targets)]
     return {"op": "flow", "links": links, "order": reorder_call["order"], "comps": [[d, d in classes] for d in reorder_call["result"]]}
+
+
+def item_key(tdest, j, child_key):
+    """the model's name for `cfg[tdest][j][child_key]` (Core/GraphFlow.itemKey)"""
+    return "%s.#%d.%s" % (tdest, j, child_key)
 
 
 def flow_expectation(sc, log_full):
@@ -625,16 +831,24 @@ def flow_expectation(sc, log_full):
     {target key: received value}) — the received value is read from the constructor call of the class owning the slot"""
     seq = []
     for name, _ in log_full:
-        o = next(x for x in all_objects(sc) if class_of(sc, x) == name)
+        o = next(x for x in all_objects(sc) if name in log_names(sc, x))
         c = comp_by_name(sc, comp_of(o))
-        d = c["name"] + ".child" if (c["kind"] == "deepgroup" and obj_level(o) >= 1) else c["name"]
+        if is_elems(o):
+            d = c["name"] if c["kind"] == "sublist" else list_dest(c)
+        else:
+            d = c["name"] + ".child" if (c["kind"] == "deepgroup" and obj_level(o) >= 1) else c["name"]
         if not seq or seq[-1] != d:
             seq.append(d)
     received = {}
     kws = {n: kw for n, kw in log_full}
     for l in sc["links"]:
         tobj, slot = l["target"]
-        received[target_key(sc, l["target"])] = kws.get(class_of(sc, tobj), {}).get(slot)
+        if is_elems(tobj):  # one position per element; an element whose class lacks the parameter received nothing (None)
+            c = comp_by_name(sc, comp_of(tobj))
+            for j, n in enumerate(log_names(sc, tobj)):
+                received[item_key(list_dest(c), j, "init_args." + slot)] = kws.get(n, {}).get(slot)
+        else:
+            received[target_key(sc, l["target"])] = kws.get(class_of(sc, tobj), {}).get(slot)
     return seq, received
 
 
@@ -679,14 +893,30 @@ def run_cyclic(sc):
 COMP_NAMES = ["a", "ab", "b", "a_b", "m.a", "m.b", "c"]
 
 
-def gen_shape(rng, deep_bias=0.45):
+def gen_elems(rng):
+    """element classes of a list argument: 0-4 elements, mixed signatures more often than not"""
+    k = rng.choice([0, 1, 2, 2, 3, 3, 4])
+    return [rng.choice(["", "a", "n", "n", "h"]) for _ in range(k)]
+
+
+def gen_shape(rng, deep_bias=0.45, list_bias=0.4):
     """components + an acyclic link set (declaration order = generation order); returns a scenario"""
     n = rng.randint(2, 4)
     names = rng.sample(COMP_NAMES, n)
     comps = []
     for i, nm in enumerate(names):
-        kind = rng.choice(DEEP_KINDS) if rng.random() < deep_bias / (1 + sum(c["kind"] in DEEP_KINDS for c in comps)) else rng.choice(FLAT_KINDS)
-        comps.append({"name": nm, "kind": kind, "cls": i})
+        r = rng.random()
+        pd = deep_bias / (1 + sum(c["kind"] in DEEP_KINDS for c in comps))
+        pl = list_bias / (1 + sum(c["kind"] in LIST_KINDS for c in comps))
+        if r < pd:
+            comps.append({"name": nm, "kind": rng.choice(DEEP_KINDS), "cls": i})
+        elif r < pd + pl * (1 - pd):
+            comps.append({"name": nm, "kind": rng.choice(GEN_LIST_KINDS), "cls": i, "elems": gen_elems(rng)})
+        else:
+            c = {"name": nm, "kind": rng.choice(FLAT_KINDS), "cls": i}
+            if c["kind"] != "group" and rng.random() < 0.2:
+                c["lacks"] = True  # the class given in the config has no p0/p1: links into them find no target
+            comps.append(c)
     sc = {"comps": comps, "links": []}
     # hidden construction order of all objects, consistent with containment
     objs = all_objects(sc)
@@ -695,14 +925,7 @@ def gen_shape(rng, deep_bias=0.45):
         pos = {o: i for i, o in enumerate(objs)}
         if all(pos[a] < pos[b] for a, b in object_edges(sc, [])):
             break
-    free = {}
-    for c in comps:
-        if c["kind"] in DEEP_KINDS:
-            free[c["name"]] = list(SLOTS["root"])
-            free[c["name"] + "/child"] = list(SLOTS["child"])
-            free[c["name"] + "/child/grandchild"] = list(SLOTS["grandchild"])
-        else:
-            free[c["name"]] = list(SLOTS[""])
+    free = {o: list(slots_of(sc, o)) for o in objs}
     n_links = rng.randint(1, 5)
     for _ in range(n_links * 3):
         if len(sc["links"]) >= n_links:
@@ -795,10 +1018,7 @@ def gen_cyclic(rng, base):
                 cands.append((s, t))
     rng.shuffle(cands)
     for s, t in cands:
-        lvl = obj_level(t)
-        kind = comp_by_name(sc, comp_of(t))["kind"]
-        slots = SLOTS[["root", "child", "grandchild"][lvl]] if kind in DEEP_KINDS else SLOTS[""]
-        freeslots = [x for x in slots if (t, x) not in used]
+        freeslots = [x for x in slots_of(sc, t) if (t, x) not in used]
         if not freeslots:
             continue
         fn = rng.choice([None, "f1"])
@@ -927,6 +1147,180 @@ def three_level_scenarios():
                 yield {"comps": comps[::-1], "links": list(pl)}
 
 
+# ----- correspondence d: ActionLink.set_target_value on hand-made configurations ---------------
+STV_CHILD_KEYS = ["init_args.p0", "init_args.p1", "init_args.child.init_args.q"]
+
+
+def stv_parser():
+    """one real parser whose actions serve as target actions: a subclass argument, a list of subclasses, an optional list, a
+    union with a list, and a plain parameter of a class group"""
+    from jsonargparse import ArgumentParser
+
+    mod = gen_module()
+    p = ArgumentParser(exit_on_error=False)
+    p.add_argument("--one", type=mod.E0)
+    p.add_argument("--lst", type=List[mod.E0])
+    p.add_argument("--opt", type=Optional[List[mod.E0]])
+    p.add_class_arguments(mod.K0, "g")
+    return p, {a.dest: a for a in p._actions if a.dest in ("one", "lst", "opt", "g.p0")}
+
+
+def stv_item(rng):
+    """a subclass spec with a random subset of the parameters present (every key path that `in` answers for)"""
+    keys = [k for k in STV_CHILD_KEYS if rng.random() < 0.5]
+    return sorted(set(["class_path"] + [k[: i] for k in keys for i in range(len(k) + 1) if i == len(k) or k[i] == "."]))
+
+
+def stv_cases(rng, n):
+    """(dest, child key or None for a plain parameter, parent shape)"""
+    fixed = []
+    full = stv_item(type("R", (), {"random": staticmethod(lambda: 0.0)}))
+    none = ["class_path"]
+    for dest in ("lst", "opt"):
+        for ck in STV_CHILD_KEYS[:2]:
+            has = sorted(set(none + ["init_args", ck]))
+            for shape in ([], [has], [none], [has, none], [none, has], [has, none, has], [none, none], [has, has], [none, has, none, has]):
+                fixed.append((dest, ck, {"list": shape}))
+    for ck in STV_CHILD_KEYS:
+        fixed += [("one", ck, {"single": full}), ("one", ck, {"single": none}), ("one", ck, {"gone": True}), ("lst", ck, {"gone": True})]
+    fixed.append(("g.p0", None, {"gone": True}))
+    out = list(fixed)
+    for _ in range(n):
+        dest = rng.choice(["one", "lst", "opt", "opt", "lst", "g.p0"])
+        if dest == "g.p0":
+            out.append((dest, None, {"gone": True}))
+            continue
+        r = rng.random()
+        if r < 0.15:
+            shape = {"gone": True}
+        elif r < 0.4:
+            shape = {"single": stv_item(rng)}   # a Namespace where a list is expected is legal input for set_target_value too
+        else:
+            shape = {"list": [stv_item(rng) for _ in range(rng.randint(0, 5))]}
+        out.append((dest, rng.choice(STV_CHILD_KEYS), shape))
+    return out
+
+
+def _ns_from_keys(keys):
+    from jsonargparse import Namespace
+
+    ns = Namespace()
+    for k in sorted(keys, key=len):
+        if any(o != k and o.startswith(k + ".") for o in keys):
+            ns[k] = Namespace()
+        else:
+            ns[k] = "cfg:" + k
+    return ns
+
+
+def real_set_target_value(actions, dest, ck, shape):
+    """run the real ActionLink.set_target_value; returns the list of positions that hold the value afterwards
+    (model naming: the target key, or dest.#j.child_key for item j of a list), or {"error": ...}"""
+    import logging
+
+    from jsonargparse import Namespace
+    from jsonargparse._link_arguments import ActionLink
+
+    sentinel = ("linked-value",)
+    cfg = Namespace()
+    if "single" in shape:
+        cfg[dest] = _ns_from_keys(shape["single"])
+    elif "list" in shape:
+        cfg[dest] = [_ns_from_keys(k) for k in shape["list"]]
+    elif ck is not None:
+        cfg[dest] = None
+    if ck is None:
+        cfg["g"] = Namespace(p0="cfg:g.p0")
+    target_key = dest if ck is None else dest + "." + ck
+    link = types.SimpleNamespace(target=(target_key, actions[dest]), option_strings=["lnk"])
+    try:
+        ActionLink.set_target_value(link, sentinel, cfg, logging.getLogger("c16-null"))
+    except Exception as ex:  # noqa: BLE001
+        return {"error": type(ex).__name__}
+    out = []
+    parent = cfg.get(dest)
+    if isinstance(parent, list):
+        for j, item in enumerate(parent):
+            for k in (item.keys() if isinstance(item, Namespace) else []):
+                if item[k] is sentinel:
+                    out.append(item_key(dest, j, k))
+    for k in cfg.keys():
+        v = cfg.get(k)
+        if v is sentinel:
+            out.append(k)
+    return out
+
+
+def correspond_set_target_value(ctx, state):
+    """correspondence d: real ActionLink.set_target_value vs model `targetSlots` - which positions receive the value, for
+    subclass arguments / lists of subclass specs (mixed, homogeneous, empty) / plain parameters"""
+    from jsonargparse._typehints import ActionTypeHint
+
+    _, actions = stv_parser()
+    cases = stv_cases(ctx.rng, ctx.budget(400, 4000) * ctx.search_boost)
+    lines, reals = [], []
+    for dest, ck, shape in cases:
+        tsub = bool(ActionTypeHint.is_subclass_typehint(actions[dest], all_subtypes=False, also_lists=True))
+        tk = dest if ck is None else dest + "." + ck
+        lines.append({"op": "slots", "links": [{"sources": [["s", None]], "target": tk, "fn": None, "tdest": dest, "tsub": tsub, "parent": shape}]})
+        reals.append(real_set_target_value(actions, dest, ck, shape))
+    model = driver(ctx, lines, "set_target_value")
+    ctx.extra["set_target_value_cases"] = len(cases)
+    if model is None:
+        return
+    for (dest, ck, shape), real, m in zip(cases, reals, model):
+        ctx.count()
+        if "list" in shape:
+            has = [ck in it for it in shape["list"]]
+            kind = "list:" + ("empty" if not has else "all-have" if all(has) else "none-has" if not any(has) else "mixed")
+            if has and any(has) and not all(has):
+                ctx.nontrivial("S" + json.dumps([dest, ck, shape]))
+        else:
+            kind = "plain" if ck is None else "single" if "single" in shape else "absent"
+        ctx.hist("set_target_value_parent", kind)
+        got = m.get("slots", [None])[0]
+        if isinstance(real, dict) or sorted(real) != sorted(got or []):
+            state["stv_disagreements"] += 1
+            if state["stv_disagreements"] <= 3:
+                ctx.tie_break("correspondence E5 (ActionLink.set_target_value vs model targetSlots) disagrees",
+                              json.dumps({"dest": dest, "child_key": ck, "parent": shape, "real": real, "model": got})[:1500])
+            # the property itself on this input: every item that has the parameter must have received the value
+            if "list" in shape and not isinstance(real, dict) and state["stv_violations"] < 2:
+                want = [item_key(dest, j, ck) for j, it in enumerate(shape["list"]) if ck in it]
+                if sorted(real) != sorted(want):
+                    state["stv_violations"] += 1
+                    ctx.violation("set_target_value on a list of subclass specs: the value reached %s, but the items having %s are %s"
+                                  % (real, ck, want), {"kind": "set_target_value", "dest": dest, "child_key": ck, "parent": shape})
+    ctx.extra["set_target_value_disagreements"] = state["stv_disagreements"]
+
+
+def list_target_scenarios():
+    """deterministic family (independent of the seed): links into the parameters of the classes of a LIST of subclass
+    specs - homogeneous, mixed (some element classes lack the parameter), none having it, empty - for the three list
+    kinds, and single subclass arguments whose class lacks the parameter; both declaration orders of the links"""
+    elem_lists = [["", "n", "a"], ["n", "h", ""], ["a", ""], ["n"], [], ["h", "n", "n", "a"]]
+    for ki, kind in enumerate(LIST_KINDS):
+        if kind == "sublist":
+            continue
+        for ei, elems in enumerate(elem_lists):
+            comps = [{"name": "a", "kind": FLAT_KINDS[(ki + ei) % 3], "cls": 0}, {"name": "ab", "kind": "group", "cls": 1},
+                     {"name": "t", "kind": kind, "cls": 2, "elems": elems}]
+            links = [{"sources": [["a", [None, "at"][ei % 2]]], "target": ["t/*", "p0"], "fn": [None, "f1"][(ki + ei) % 2]},
+                     {"sources": [["ab", "bt"], ["a", None]], "target": ["t/*", "p1"], "fn": "f2"}]
+            if kind == "listgroup":
+                links.append({"sources": [["ab", None]], "target": ["t", "r"], "fn": None})
+                comps = comps + [{"name": "c", "kind": "typed", "cls": 3}]
+                links.append({"sources": [["t", "at"]], "target": ["c", "p3"], "fn": None})  # the group holding the list is a source itself
+            for pl in ([links, links[::-1]] if ei % 2 else [links]):
+                yield {"comps": comps if ei % 2 else comps[::-1], "links": list(pl)}
+    for kind in ("subclass", "typed"):
+        comps = [{"name": "a", "kind": "group", "cls": 0}, {"name": "b", "kind": kind, "cls": 1, "lacks": True}, {"name": "c", "kind": "subclass", "cls": 2}]
+        links = [{"sources": [["a", None]], "target": ["b", "p0"], "fn": None}, {"sources": [["a", "at"]], "target": ["b", "p2"], "fn": "f1"},
+                 {"sources": [["b", "at"]], "target": ["c", "p1"], "fn": None}]
+        for pl in itertools.permutations(links):
+            yield {"comps": comps, "links": list(pl)}
+
+
 # ---------------------------------------------------------------------------------------------
 # the check
 # ---------------------------------------------------------------------------------------------
@@ -1027,6 +1421,8 @@ def classify_e2e(ctx, sc, fails, cyclic, state, origin):
         fid = FINDING_CYCLE if cyclic else FINDING_ORDER
     elif not cyclic and is_nested_source_failure(sc, fails):
         fid = FINDING_NSRC
+    elif not cyclic and is_sublist_drop_failure(sc, fails):
+        fid = FINDING_SUBLIST
     if fid and ctx.is_open(fid):
         ctx.known(fid, "%s (e.g. links %s)" % (fails[0], json.dumps([[[source_key(sc, s) for s in l["sources"]], target_key(sc, l["target"])] for l in sc["links"]])[:200]))
         state["known_hits"] += 1
@@ -1041,6 +1437,8 @@ def classify_e2e(ctx, sc, fails, cyclic, state, origin):
 
 def shrink_scenario(sc, cyclic):
     """drop links (and then unused components) while the scenario still fails outside the known-finding signature"""
+    sub0 = (not cyclic) and is_sublist_drop_failure(sc, run_acyclic(sc)[0])
+
     def failing(c):
         if not c["links"]:
             return False
@@ -1052,7 +1450,8 @@ def shrink_scenario(sc, cyclic):
             if first_cycle_index(c) is not None:
                 return False
             f = run_acyclic(c)[0]
-        return bool(f) and nested_target_in_source(c) == nested_target_in_source(sc) and nested_source_below_linked(c) == nested_source_below_linked(sc)
+        return (bool(f) and nested_target_in_source(c) == nested_target_in_source(sc) and nested_source_below_linked(c) == nested_source_below_linked(sc)
+                and (cyclic or is_sublist_drop_failure(c, f) == sub0))
 
     cur = {"comps": list(sc["comps"]), "links": list(sc["links"])}
     changed = True
@@ -1122,12 +1521,12 @@ def correspond_flow(ctx, state):
     """value flow: constructor sequence and the argument every fed parameter received, real run vs model
     (`instantiateClasses` of Core/GraphFlow walked along the component sequence the real call used)"""
     items = state["flow_items"]
-    model = driver(ctx, [flow_case(sc, call) for sc, call, _ in items], "value flow")
+    model = driver(ctx, [flow_case(sc, call, targets) for sc, call, _, targets in items], "value flow")
     ctx.extra["value_flow_runs_compared"] = len(items)
     if model is None:
         return
     n_vals = 0
-    for (sc, call, log_full), m in zip(items, model):
+    for (sc, call, log_full, _targets), m in zip(items, model):
         ctx.count()
         seq, received = flow_expectation(sc, log_full)
         m_seq = [e[0] for e in m.get("log", [])]
@@ -1148,6 +1547,9 @@ def correspond_flow(ctx, state):
                 if m_recv.get(k) != v:
                     bad = "argument received through %s" % k
                     break
+            extra = sorted(set(m_recv) - set(received))
+            if not bad and extra:
+                bad = "the model writes a value to %s, no constructor of the real run can have received it" % extra[0]
         if bad:
             state["flow_disagreements"] += 1
             if state["flow_disagreements"] <= 3:
@@ -1219,16 +1621,19 @@ def bookkeeping_oracle(ctx, state, scenarios):
                 first[name] = (inst, kw)
             for l in sc["links"]:
                 tobj, slot = l["target"]
-                if class_of(sc, tobj) not in first:
-                    problems.append("class %s not constructed after a failed call" % class_of(sc, tobj))
-                    continue
-                exp = []
-                for sobj, attr in l["sources"]:
-                    sinst = first.get(class_of(sc, sobj), (None, None))[0]
-                    exp.append(getattr(sinst, attr) if attr and sinst is not None else sinst)
-                want = [l["fn"]] + exp if l.get("fn") else exp[0]
-                if not same_value(first[class_of(sc, tobj)][1][slot], want):
-                    problems.append("after a failed call parameter %s of %s did not receive the linked value" % (slot, tobj))
+                for tname in log_names(sc, tobj):
+                    if tname not in first:
+                        problems.append("class %s not constructed after a failed call" % tname)
+                        continue
+                    if not has_slot(sc, tname, tobj, slot):
+                        continue
+                    exp = []
+                    for sobj, attr in l["sources"]:
+                        sinst = first.get(class_of(sc, sobj), (None, None))[0]
+                        exp.append(getattr(sinst, attr) if attr and sinst is not None else sinst)
+                    want = [l["fn"]] + exp if l.get("fn") else exp[0]
+                    if not same_value(first[tname][1][slot], want):
+                        problems.append("after a failed call parameter %s of %s did not receive the linked value" % (slot, tname))
         if problems and state["e2e_violations"] < 4:
             state["e2e_violations"] += 1
             ctx.violation("instantiate_classes after a failed call: " + problems[0], {"kind": "e2e-after-failure", "scenario": sc, "failures": problems[:5]})
@@ -1250,7 +1655,13 @@ def run_e2e(ctx, state, n_shapes, cap, n_cyclic, corpus_scenarios):
             ctx.hist("e2e_component_kind", c["kind"])
         for l in sc["links"]:
             ctx.hist("e2e_link_kind", ("fn%d" % len(l["sources"]) if l.get("fn") else "plain") + ("/attr" if any(a for _, a in l["sources"]) else "/object")
-                     + ("/nested-target" if obj_level(l["target"][0]) else ""))
+                     + ("/list-target" if is_elems(l["target"][0]) else "/nested-target" if obj_level(l["target"][0]) else ""))
+            if is_elems(l["target"][0]):
+                ev = comp_by_name(sc, comp_of(l["target"][0]))["elems"]
+                has = [l["target"][1] in VARIANT_PARAMS[v] for v in ev]
+                ctx.hist("e2e_list_target", "empty" if not ev else "all-have" if all(has) else "none-has" if not any(has) else "mixed")
+            elif comp_by_name(sc, comp_of(l["target"][0])).get("lacks"):
+                ctx.hist("e2e_list_target", "single:" + ("class-lacks-param" if l["target"][1] not in LACKS_PARAMS else "class-has-param"))
         if cyclic:
             fails, _ = run_cyclic(sc)
             ctx.hist("e2e_outcome", "cyclic:" + ("rejected" if not fails else "FAIL"))
@@ -1265,7 +1676,7 @@ def run_e2e(ctx, state, n_shapes, cap, n_cyclic, corpus_scenarios):
             if "parser" in obs and len(items) < state["max_parser_corr"]:
                 items.append((sc, obs["parser"], obs.get("reorder_calls"), obs.get("schedule") if not fails else None))
                 if not fails and obs.get("reorder_calls"):
-                    state["flow_items"].append((sc, obs["reorder_calls"][0], obs["log_full"]))
+                    state["flow_items"].append((sc, obs["reorder_calls"][0], obs["log_full"], obs["targets"]))
         classify_e2e(ctx, sc, fails, cyclic, state, origin)
 
     for c in corpus_scenarios:
@@ -1280,6 +1691,11 @@ def run_e2e(ctx, state, n_shapes, cap, n_cyclic, corpus_scenarios):
         one(sc, False, "three-level")
         n3 += 1
     ctx.extra["three_level_target_scenarios"] = n3
+    nl = 0
+    for sc in list_target_scenarios():
+        one(sc, False, "list-targets")
+        nl += 1
+    ctx.extra["list_target_scenarios"] = nl
     # every link graph on few flat components (deterministic floor, independent of the seed)
     n_ex = {"acyclic": 0, "cyclic": 0}
     plan = [(3, False, 6, 24)] if not ctx.thorough else [(3, False, 36, 24), (2, True, 24, 24), (4, False, 6, 4)]
@@ -1297,6 +1713,8 @@ def run_e2e(ctx, state, n_shapes, cap, n_cyclic, corpus_scenarios):
     ctx.extra["exhaustive_flat_link_graphs"] = dict(n_ex, plan=[{"components": n, "self_links": l} for n, l, _, _ in plan])
     shapes = []
     for _ in range(n_shapes):
+        if state["e2e_violations"] >= 4 and ctx.search_boost > 1:
+            break  # boosted search after a broken tie: failing inputs have been found, no need for the rest of the budget
         base = gen_shape(ctx.rng)
         if not base["links"]:
             continue
@@ -1304,6 +1722,8 @@ def run_e2e(ctx, state, n_shapes, cap, n_cyclic, corpus_scenarios):
         for sc in declaration_orders(base, ctx.rng, cap):
             one(sc, False, "generated")
     for i in range(n_cyclic):
+        if state["e2e_violations"] >= 4 and ctx.search_boost > 1:
+            break
         base = shapes[i % len(shapes)] if shapes else gen_shape(ctx.rng)
         cyc = gen_cyclic(ctx.rng, base)
         if cyc is None:
@@ -1316,7 +1736,8 @@ def run_e2e(ctx, state, n_shapes, cap, n_cyclic, corpus_scenarios):
     correspond_parsers(ctx, items, state)
     correspond_pure_inst_order(ctx, state)
     correspond_flow(ctx, state)
-    bookkeeping_oracle(ctx, state, [sc for sc, _, _ in state["flow_items"]][: ctx.budget(150, 1500)])
+    correspond_set_target_value(ctx, state)
+    bookkeeping_oracle(ctx, state, [x[0] for x in state["flow_items"]][: ctx.budget(150, 1500)])
     ctx.extra["after_failure_runs"] = state["bookkeeping_runs"]
 
 
@@ -1326,18 +1747,23 @@ def run(ctx: Ctx):
                 "digraph on 4 nodes, random graphs with duplicates/self loops), real DirectedGraph vs Lean model and vs an independent order/cycle check; "
                 "non-trivial = >=2 edges. reorder: key lists x component lists over names incl. 'a','ab','a.b', real vs model vs own stable sort; "
                 "non-trivial = result differs from the input order. end to end: 2-4 components (group/subclass/typed/deep group/deep subclass), 1-5 "
-                "acyclic instantiate links (object/attribute/compute_fn, 1-2 sources, nested targets and sources) in every declaration order, plus cyclic "
-                "sets; checked from the constructor log; non-trivial = >=2 links (acyclic) or any cyclic set; distinct by canonical JSON")
+                "acyclic instantiate links (object/attribute/compute_fn, 1-2 sources, nested targets and sources, targets inside lists of 0-4 subclass "
+                "specs with mixed signatures, classes lacking the linked parameter) in every declaration order, plus cyclic "
+                "sets; checked from the constructor log; non-trivial = >=2 links (acyclic) or any cyclic set; distinct by canonical JSON. "
+                "set_target_value: dest kind x child key x parent shape (absent / spec / list of 0-5 specs with random key subsets), real vs model; "
+                "non-trivial = mixed list")
     ctx.assumptions = [
         "list(set) iteration order of the link targets is read from the running interpreter and handed to the model (hash dependent in the code)",
         "keys contain no newline (re.sub(r'\\.init_args$') is modelled as a plain suffix strip)",
         "interpreter recursion limit (chains of ~1000 links) is outside the model; the model's fuel is proved never to run out",
         "nested links applied inside a subclass (is_nested_instantiation_link) and links skipped because a source attribute is missing are outside the generator",
+        "items of a list-of-subclasses argument are Namespaces after parsing (set_target_value on other item types is not exercised)",
+        "statement ties compare ast.unparse text produced by the interpreter of /venv (a different Python may print the same AST differently)",
     ]
-    ctx.lean_build(extractors=["link_bookkeeping"])
+    ctx.lean_build(extractors=["link_bookkeeping", "link_flow_src"])
     state = {"graph_violations": 0, "graph_disagreements": 0, "neighbour_graphs": [], "reorder_violations": 0, "reorder_disagreements": 0,
              "e2e_violations": 0, "e2e_acyclic": 0, "e2e_cyclic": 0, "known_hits": 0, "inst_disagreements": 0, "max_parser_corr": ctx.budget(400, 4000),
-             "flow_items": [], "flow_disagreements": 0, "bookkeeping_runs": 0}
+             "flow_items": [], "flow_disagreements": 0, "bookkeeping_runs": 0, "stv_disagreements": 0, "stv_violations": 0}
 
     from ..lib import corpus as corpus_mod
 
@@ -1465,6 +1891,14 @@ def replay(ctx: Ctx, body):
             print("constructor log:", obs.get("log"))
         print("failures:", fails)
         return 1 if fails else 0
+    if kind == "set_target_value":
+        _, actions = stv_parser()
+        real = real_set_target_value(actions, r["dest"], r["child_key"], r["parent"])
+        want = [item_key(r["dest"], j, r["child_key"]) for j, it in enumerate(r["parent"]["list"]) if r["child_key"] in it]
+        print("list items (key paths):", r["parent"]["list"])
+        print("link target:", r["dest"] + "." + r["child_key"])
+        print("positions holding the value after set_target_value:", real, " expected:", want)
+        return 1 if isinstance(real, dict) or sorted(real) != sorted(want) else 0
     if kind == "e2e-after-failure":
         st = {"e2e_violations": 0, "bookkeeping_runs": 0}
 
